@@ -201,6 +201,14 @@ var witnesses = []witness{
 	})},
 	// sqlite.Open left the *sql.DB (and its goroutine) open when the file is not a database
 	{"sqlite-not-a-database", rpmLayer("var/lib/rpm/rpmdb.sqlite", func() []byte { return []byte("SQLite format 3\x00") })},
+	// rpm/sqlite AllHeaders allocated 16 KiB per row (75b6c7c6): 12000 one-byte rows
+	{"sqlite-12000-one-byte-rows", rpmLayer("var/lib/rpm/rpmdb.sqlite", func() []byte { return sqliteRows(12000) })},
+	// many hash items of a bdb database leading into one overflow chain (the
+	// chain walk keeps one file-wide set of linked pages: an error, not work
+	// per item)
+	{"bdb-fan-in-64KiB-pages", rpmLayer("var/lib/rpm/Packages", func() []byte {
+		return bdbFan{pageSz: 65536, nHash: 2, perHash: maxFanItems(65536), chainLen: 4, how: "same-item"}.build()
+	})},
 	// quadratic rpm.FileInstalledByRPM on layers without an rpm database
 	{"many-package-json-3000", manyPackageJSON(3000)},
 	{"bdb-name-tag-of-integer-type", rpmLayer("var/lib/rpm/Packages", func() []byte {
